@@ -46,6 +46,13 @@ class EventHeap:
         # Per-heap event counter for parallel partition isolation.
         # Set via _active_sim_context so Event/ProcessContinuation use it.
         self._event_counter: count = count()
+        # Lowest index the per-heap counter may issue next: one past the largest
+        # creation index of any event this heap has seen (pre-run events draw
+        # their indices from the global counter).
+        self._index_floor: int = 0
+        for event in self._heap:
+            if event._sort_index >= self._index_floor:
+                self._index_floor = event._sort_index + 1
 
     def set_current_time(self, time: Instant) -> None:
         """Update the current simulation time for accurate trace timestamps."""
@@ -107,8 +114,19 @@ class EventHeap:
         """Return the total number of pending events."""
         return len(self._heap)
 
+    def _continue_event_counter(self) -> count:
+        """Re-base the per-heap counter above every index already seen by this heap.
+
+        Keeps creation order as the tie-break between events created before the
+        run (global counter) and events created during it (per-heap counter).
+        """
+        self._event_counter = count(max(self._event_counter.__next__(), self._index_floor))
+        return self._event_counter
+
     def _push_single(self, event: Event) -> None:
         heapq.heappush(self._heap, event)
+        if event._sort_index >= self._index_floor:
+            self._index_floor = event._sort_index + 1
         if not event.daemon:
             self._primary_event_count += 1
         if logger.isEnabledFor(logging.DEBUG):
